@@ -126,7 +126,7 @@ CHECKS["C10"] = dict(
           "must equal the brute-force best (largest version <= ts) over the entries the tables physically hold: same "
           "versioned key, value, tombstone flag, or not-found; before any compaction the tables must hold exactly the "
           "flushed multiset. Non-trivial: >= 2 tables, a table with >= 2 blocks, and a query whose answer lives in a "
-          "different table than the first one containing the key. Second leg: the small universe {a, a!, a1} x versions "
+          "different table than the first one containing the key. Second leg: the small universe {a, a!, a@1} x versions "
           "1..4 - every subset of the 12 entries x 5 split points into two version-ordered tables x block size {1 entry, "
           "all} x {handles as built, handles rebuilt by Recover} = 81920 layouts x 42 queries (7 keys incl. absent ones "
           "before/between/after x ts 0..5) - is ENUMERATED COMPLETELY in both tiers (non-trivial there: two tables, one "
